@@ -172,7 +172,54 @@ FREE_USES = {
 }
 
 
-def build(w):
+VARIANTS = [None, 'reentrant']
+
+
+def drain_reentrant(w, items):
+    """Heap._free_pending_blocks while finalizers may run: `_free` (and everything it calls) may trigger a garbage
+    collection whose finalizers call free(); the heap lock is held by this thread, so such a free() appends its block to
+    the pending list (contract of free(): deferred_when_the_lock_is_taken).  The flush must not lose such a block: every
+    block that was pending at entry *or was given back while the flush ran* has been handed to `_free` exactly once when
+    the function returns, and nothing is left pending.  Ghost counters: g.freed (calls of _free), g.given_back (blocks
+    appended by finalizers during the flush).  `_free` is used through a counting abstraction here (its effect on the
+    indexes is the subject of the sequential contracts); at most one finalizer block per call of `_free`, any number over
+    the flush."""
+    by = {c.qualname: c for c in items}
+    full = by['heap.Heap._free_pending_blocks']
+    w.classes['g'].fields.update({'freed': IntS, 'given_back': IntS})
+    PD = 'self._pending_free_blocks'
+    from pyvc.builtins_impl import container_method
+
+    def ext_free(ex, args, kw):
+        me = args[0]
+        gset(ex, 'freed', SV(IntS, gget(ex, 'freed').e + 1))
+        if ex.path.choose(2) == 1:
+            b = BLK.fresh('given_back')
+            ex.path.assume(ex.spec_bool('has(%s, b) and count(%s, b) == 0' % (A, PD), {'self': me, 'b': b}))
+            container_method(ex, ex.path.read_field(me, '_pending_free_blocks'), 'append', [b], {})
+            gset(ex, 'given_back', SV(IntS, gget(ex, 'given_back').e + 1))
+        return SNone()
+    pending_wf = full.requires['pending_blocks_are_allocated']
+    balance = 'g.freed - old(g.freed) + len(%s) == old(len(%s)) + g.given_back - old(g.given_back)' % (PD, PD)
+    return Contract(
+        'heap.Heap._free_pending_blocks', prop=PROP, variants=['reentrant'], params=dict(full.params),
+        externals={'heap.Heap._free': ext_free},
+        requires={'objects': 'allocated(%s) and allocated(%s) and len(%s) >= 0' % (PD, A, PD),
+                  'pending_blocks_are_allocated': pending_wf},
+        modifies=['list<tup[ref[Arena],int,int]>.*', A + '.*', 'g.freed', 'g.given_back'],
+        loops={0: {'inv': {'pending_blocks_are_allocated': pending_wf, 'pending': 'len(%s) >= 0' % PD,
+                           'every_block_taken_off_the_list_was_freed': balance,
+                           'counters': 'g.freed >= old(g.freed) and g.given_back >= old(g.given_back)'},
+                   'modifies': ['list<tup[ref[Arena],int,int]>.*', A + '.*', 'g.freed', 'g.given_back']}},
+        ensures={'nothing_left_pending': 'len(%s) == 0' % PD,
+                 'blocks_given_back_during_the_flush_are_freed_too':
+                     'g.freed - old(g.freed) == old(len(%s)) + g.given_back - old(g.given_back)' % PD},
+    )
+
+
+def build(w, variant=None):
+    if variant == 'reentrant':
+        return [drain_reentrant(w, build(w))]
     w.cls('g', fields={'arenas_mapped': IntS, 'pid': IntS})
     w.spec_funcs['list_unchanged'] = sp_list_unchanged
     w.cls('Arena', fields={'size': IntS})
@@ -479,5 +526,9 @@ MANIFEST_ENTRY = {
             '(the seeded change C14-a, RLock for Lock, is refuted at __init__); what a finalizer would do in the middle of an '
             'operation is an interleaving, outside sequential contracts.  The global statement "the arenas are always exactly '
             'partitioned" is carried by the exactness clauses of each operation (nothing lost, nothing taken twice); the sum over '
-            'a whole history is the induction of DESIGN.md section 4.',
+            'a whole history is the induction of DESIGN.md section 4.  Variant `reentrant`: _free_pending_blocks is proved a '
+            'second time with `_free` replaced by a counting abstraction that lets a finalizer give one more block back to the '
+            'pending list during each call (ghost counters g.freed, g.given_back): every block that was pending at entry or was '
+            'given back while the flush ran has been handed to _free when the function returns, and nothing stays pending -- '
+            'the clause a snapshot-then-clear or peek-free-pop rewrite of the loop breaks.',
 }
